@@ -189,9 +189,6 @@ def run(call: GeneratorCall) -> Module:
         # Its name must not depend on which generators have returned it since: leave it as it is.
         handed_on = m._generated_by is not None
 
-        # Give the result a reference back to the generating `Call`
-        m._generated_by = call
-
         if not handed_on:
             # Module naming
             # If the Module that comes back is anonymous, start by giving it a name equal to the Generator's
@@ -201,6 +198,10 @@ def run(call: GeneratorCall) -> Module:
             # If it has a nonzero number of parameters, add a unique suffix per its parameter-values
             if hasparams(call.gen.Params):
                 m.name += "(" + _unique_name(call.params) + ")"
+
+        # Give the result a reference back to the generating `Call`.
+        # Only now that it is named: a call whose naming failed must not leave the Module looking "handed on".
+        m._generated_by = call
     except Exception:
         # The call failed, and is no longer in flight. A later, identical call runs the generator again.
         the_cache.stack.pop()
